@@ -159,6 +159,37 @@ def run(F, rep, tier):
             rep.viol('R11.1', '%s|len-next-agreement' % base, '%s: %s' % (ty, '; '.join(bad)), F.body(nxt).loc(0))
         else:
             rep.ok('R11.1', inst, 'consistent')
+    # ---------------- R11.7
+    rep.rule('R11.7', 'observation is relative to the cursor: in every impl Stream, an overriding len / peek / reversed / pythonic_index_isize / '
+             'pythonic_slice that reads the stream\'s state at all reads every field that next() advances (writes of next under-approximated, '
+             'reads over-approximated), and no path that reads other fields of the stream reaches a non-constant result (anything but None / Err / an early `?` exit) without reading the cursor; an override reading nothing is a constant and independent of the cursor by construction', exhaustive=True)
+    from .streamfields import next_writes, reads, cursor_free_paths
+    n117 = 0
+    for imp in impls:
+        ty = imp['self_ty']
+        base = ty.split('<')[0]
+        its = [i for i in F.impls if i['trait'] == 'std::iter::Iterator' and i['self_ty'] == ty]
+        nxt = F.impl_fn(its[0], 'next') if its else None
+        adt = F.adts.get(base)
+        if not nxt or not F.has_fn(nxt) or not adt:
+            continue
+        allf = ['f%d:%s' % (i, f['name']) for i, f in enumerate(adt['variants'][0]['fields'])]
+        w = next_writes(F.body(nxt))
+        for m in ('len', 'peek', 'reversed', 'pythonic_index_isize', 'pythonic_slice'):
+            fn = F.impl_fn(imp, m)
+            if not fn or not F.has_fn(fn):
+                continue
+            r, whole = reads(F.body(fn), allf)
+            n117 += 1
+            free = cursor_free_paths(F.body(fn), allf, w) if (w and r) else []
+            if (not r or w <= r) and not free:
+                rep.ok('R11.7', '%s::%s' % (base, m), 'next advances %s; reads %s%s; no result-producing path reads other state without the cursor' % (sorted(w), sorted(r) or 'nothing (constant)', ' (whole self)' if whole else ''))
+            elif free:
+                fb = F.body(fn)
+                rep.viol('R11.7', '%s|%s|cursor-free-path' % (base, m), '%s::%s has a path that reads the stream\'s other state (%s) and produces a result (%s) without ever reading %s, the field next() advances: on that path a partially consumed stream answers as if nothing had been consumed' % (ty, m, fb.loc(free[0][0]), fb.loc(free[0][1]), sorted(w)), fb.loc(free[0][0]))
+            else:
+                rep.viol('R11.7', '%s|%s|cursor-field' % (base, m), '%s::%s reads %s but not %s, the field next() advances: after consuming elements it still answers for the start of the stream' % (ty, m, sorted(r), sorted(w - r)), F.body(fn).loc(0))
+    rep.floor('R11.7', 'observing overrides', n117, 20)
     for base in ('streams::Repeat', 'streams::Cycle', 'streams::Iterate'):
         t = table.get(base)
         if t and t[1]:
